@@ -470,6 +470,9 @@ def _list(I, args, kw):
     seq = ex.as_symbolic_seq(v)
     if seq is not None:
         return HList(sym=SSeq(seq.t, seq.elem))
+    if is_tagged(v, "dictitems-first"):
+        present, item = _first_item_of(I, v[1])
+        return HList(items=[item] if present else [])
     if is_tagged(v, "islice", "opaque-iter") or isinstance(v, SAny):
         return Tagged("opaque-list", v)
     raise Unsupported(f"list() of {v!r}")
@@ -556,6 +559,8 @@ def _islice(I, args, kw):
     it = args[0]
     if is_tagged(it, "opaque-iter") and len(args) == 2 and isinstance(args[1], int) and args[1] >= 1:
         return it
+    if is_tagged(it, "dictitems") and len(args) == 2 and args[1] == 1 and not isinstance(args[1], bool):
+        return Tagged("dictitems-first", it[1])
     I.use("itertools.islice(it, start, stop): ValueError unless start/stop are None or 0 <= x <= sys.maxsize; yields the elements start..stop-1")
     if len(args) == 2:
         start, stop = None, args[1]
@@ -574,10 +579,31 @@ def _islice(I, args, kw):
     return Tagged("islice", it, start, stop)
 
 
+def _first_item_of(I, d):
+    """(present?, (key, value)) for the first item of a symbolic dict: some key that is present, with its value."""
+    ex = I.ex
+    k = ex.fresh("first_key", d.ksort)
+    ex_has = z3.Select(d.has, k.t)
+    lenv = _len(I, [d], {})
+    nonempty = ex.decide(ex.to_int_term(lenv) > 0)
+    if not nonempty:
+        return False, None
+    ex.assume(ex_has)
+    I.use("iteration over a non-empty symbolic dict starts with some present key and its value")
+    return True, (k, wrap(z3.Select(d.val, k.t), d.vkind))
+
+
 @ext(next)
 def _next(I, args, kw):
     ex = I.ex
     it = args[0]
+    if is_tagged(it, "dictitems-first", "dictitems"):
+        present, item = _first_item_of(I, it[1])
+        if present:
+            return item
+        if len(args) > 1:
+            return args[1]
+        ex.raise_builtin("StopIteration", "next() of an empty dict view")
     if is_tagged(it, "opaque-iter"):
         from .intrinsics import F_any_truth
 
@@ -1030,7 +1056,8 @@ def _dupdate(I, recv, args, kw):
 def _ditems(I, recv, args, kw):
     if recv.concrete is not None:
         return list(recv.concrete.items())
-    raise Unsupported("items() of symbolic dict")
+    # a view over a symbolic dict: consumed by islice(.., 1) / next / list (the first (key, value) pair, if any)
+    return Tagged("dictitems", recv)
 
 
 @meth("dict", "keys")
